@@ -39,6 +39,28 @@ def run_all():
         lambda: gs.k_val95(2.5),                                    # raises TypeError
         lambda: sv.first_vel_corrn(1000.0, (281.8, 79.4), 15.0, 1013.25),   # neither humidity nor wet bulb: raises
         lambda: sv.va_conv(180.0, 10.0),                            # raises
+        # calls that fail half-way through a wrapper (a mode flag / context left set by an exception)
+        lambda: gt.transform_mga2020_to_mga94(61, 500000.0, 6000000.0),             # invalid zone: raises
+        lambda: gt.transform_mga2020_to_mga94(55, 500000.0, 6000000.0, 10.0, np.eye(2)),   # 2x2 covariance: raises
+        lambda: gt.transform_mga94_to_mga2020(55, 500000.0, 6000000.0, 10.0, np.eye(2)),
+        lambda: gt.transform_mga2020_to_mga94(55, 500000.0, -5.0e7),               # absurd northing
+        lambda: gt.transform_gda2020_to_atrf2014(1.0, 2.0, 3.0, 'not a date'),     # raises
+        lambda: gt.transform_atrf2014_to_gda2020(1.0, 2.0, 3.0, None),             # raises
+        lambda: gt.conform14(1.0, 2.0, 3.0, 'not a date', gc.itrf2014_to_gda2020),
+        lambda: gg.vincinv_utm(55, 500000.0, 6000000.0, 99, 500000.0, 6000000.0),  # invalid second zone: raises
+        lambda: gg.vincdir_utm(55, 500000.0, 6000000.0, 45.0, float('nan')),
+        lambda: cv.geo2grid(ga.DMSAngle(-85, 0, 0), ga.DMSAngle(10, 0, 0)),
+        lambda: gs.vcv_cart2local(np.eye(2), -23.0, 133.0),                        # wrong shape: raises
+        lambda: gs.vcv_local2cart(np.zeros((3, 2)), -23.0, 133.0),
+        lambda: sv.precise_inst_ht([], 0.5, 0.1),                                  # empty observation list
+        lambda: sv.first_vel_params(0.0, 0.0),                                     # division by zero
+        # the hash twins -1 / -2 (CPython: hash(-1) == hash(-2)) in value positions
+        lambda: gs.rotation_matrix(-1, 133.0),
+        lambda: gs.rotation_matrix(-2.0, -1.0),
+        lambda: sv.group_refractivity(0.85, -1, 1013.25, 10.0),
+        lambda: sv.phase_refractivity(0.85, -2.0, 1013.25, 10.0),
+        lambda: cv.geo2grid(-1, -2), lambda: cv.geo2grid(-2, -1),
+        lambda: cv.llh2xyz(-1, -2, -1), lambda: cv.xyz2llh(-1, -2, 6.4e6),
     ]
     with warnings.catch_warnings():
         warnings.simplefilter('ignore')
